@@ -106,10 +106,24 @@ def gen_point(rng, npr, fname, tier):
             y[rng.randrange(dim)] = 0.0           # |x - 0| / (|x| + 0) = 1: flat coordinate
         x, y = f32(x), f32(y)
         if fname in ("bray_curtis_grad", "canberra_grad") and np.any(x < 0): tags.add("negative_coords")
+    # Minkowski exponent first: for p > 1 the distance is differentiable where a coordinate of x equals that of y (partial derivative 0),
+    # so exact ties are generated there (quantised / count data); for p = 1 they are kinks
+    mk_p = None
+    if fname == "minkowski_grad":
+        mk_p = rng.choice([None, 1.0, 1.5, 2.0, 3.0, 4.5, 1.25, 1.9])
+    if fname == "weighted_minkowski_grad":
+        mk_p = rng.choice([1.0, 1.5, 2.0, 3.0, 4.5, 1.25, 1.9])
+    smooth_ties = fname in ("minkowski_grad", "weighted_minkowski_grad") and (mk_p is None or mk_p > 1.0)
+    if smooth_ties and rng.random() < 0.45 and dim >= 2:
+        for j in rng.sample(range(dim), rng.randint(1, max(1, dim // 2))):
+            y[j] = x[j]
+        tags.add("tied_coordinate")
+        if np.abs(x - y).max() < 0.2 * s: return None
     # kinks
     diff = np.abs(x - y)
     if fname in ("manhattan_grad", "minkowski_grad", "weighted_minkowski_grad", "canberra_grad", "bray_curtis_grad", "chebyshev_grad"):
-        if diff.min() < m * s: return None
+        nz = diff[diff > 0] if smooth_ties else diff
+        if nz.size == 0 or nz.min() < m * s: return None
     if fname == "canberra_grad" and np.abs(x).min() < m * s: return None
     if fname == "bray_curtis_grad" and np.abs(x + y).min() < m * s: return None
     if fname == "chebyshev_grad":
@@ -119,12 +133,12 @@ def gen_point(rng, npr, fname, tier):
         return None
     # parameters
     if fname == "minkowski_grad":
-        p = rng.choice([None, 1.0, 1.5, 2.0, 3.0, 4.5])
+        p = mk_p
         if p is None: tags.add("default_params")
         else: params, pm = (p,), {"p": p}
         if p not in (None, 2.0): tags.add("p_not_2")
     if fname == "weighted_minkowski_grad":
-        p = rng.choice([1.0, 1.5, 2.0, 3.0, 4.5])
+        p = mk_p
         w = f32(npr.uniform(0.3, 3.0, size=dim))
         params, pm = (w, p), {"w": w, "p": p}
         if p != 2.0: tags.add("p_not_2")
